@@ -1,13 +1,23 @@
 //@include prelude/header.rs
 // Unit completion_ctx (property C18, context part).
-use rustpython_parser::ast::{Expr, Stmt, Keyword, Identifier, Constant, ExceptHandler, ExprCall, Alias, Arguments, ArgWithDefault};
+use rustpython_parser::ast::{Expr, Stmt, Keyword, Identifier, Constant, ExceptHandler, ExprCall, Alias, Arguments, ArgWithDefault, Ranged};
 use rustpython_parser::text_size::TextRange;
 verus! {
+global size_of usize == 8;  // A6: 64-bit target
 pub mod pre {
 use super::*;
 //@include build/astspec.rs
+#[verifier::external_type_specification] #[verifier::reject_recursive_types(R)] pub struct ExMod<R>(rustpython_parser::ast::Mod<R>);
+#[verifier::external_type_specification] #[verifier::reject_recursive_types(R)] pub struct ExModModule<R>(rustpython_parser::ast::ModModule<R>);
+#[verifier::external_type_specification] #[verifier::reject_recursive_types(R)] pub struct ExModInteractive<R>(rustpython_parser::ast::ModInteractive<R>);
+#[verifier::external_type_specification] #[verifier::reject_recursive_types(R)] pub struct ExModExpression<R>(rustpython_parser::ast::ModExpression<R>);
+#[verifier::external_type_specification] #[verifier::reject_recursive_types(R)] pub struct ExModFunctionType<R>(rustpython_parser::ast::ModFunctionType<R>);
+#[verifier::external_type_specification] #[verifier::reject_recursive_types(R)] pub struct ExTypeIgnore<R>(rustpython_parser::ast::TypeIgnore<R>);
+#[verifier::external_type_specification] #[verifier::reject_recursive_types(R)] pub struct ExTypeIgnoreTypeIgnore<R>(rustpython_parser::ast::TypeIgnoreTypeIgnore<R>);
 //@include prelude/path.rs
 //@include prelude/types.rs
+//@include prelude/arc.rs
+//@include prelude/box_asref.rs
 //@include prelude/hof.rs
 //@include prelude/strings.rs
 //@include prelude/iter_ext.rs
@@ -16,6 +26,7 @@ use super::*;
 //@include prelude/ast_spec.rs
 //@include prelude/line_spec.rs
 //@include prelude/completion_ctx_spec.rs
+//@include prelude/completion_ctx_l2.rs
 //@include prelude/completion_shims.rs
 } // mod pre
 use pre::*;
@@ -33,6 +44,11 @@ use super::*;
 
 // no field of the database is read directly by these methods (a field access would not compile: UNDECIDED)
 pub struct FixtureDatabase {}
+impl FixtureDatabase {
+    /// what get_file_content returns for a path (file_cache entry, else the file system), as a function of the
+    /// database state at the time of the call
+    pub uninterp spec fn content_of(&self, file: PV) -> Option<Seq<char>>;
+}
 
 pub mod resolver {
 use super::*;
@@ -46,6 +62,90 @@ impl FixtureDatabase {
                                content: &str, line_index: &[usize]) -> (r: usize)
         ensures r == sig_end_line(func_start_line, *args, *returns, body@, content@, line_index@)
     { unimplemented!() }
+
+    // ---- callee contracts ASSUMED here (memoised environment reads; the memo tables themselves: unit memo) -----------
+    /// the text of a file (file_cache entry, else the file system): some function of the path at the time of the call
+    #[verifier::external_body]
+    pub(crate) fn get_file_content(&self, file_path: &Path) -> (r: Option<Arc<String>>)
+        ensures (match r { Some(a) => Some((*a)@), None => None::<Seq<char>> }) == self.content_of(pv(file_path))
+    { unimplemented!() }
+    /// the parser, memoised by content hash: determined by the text alone
+    #[verifier::external_body]
+    pub(crate) fn get_parsed_ast(&self, file_path: &Path, content: &str) -> (r: Option<Arc<rustpython_parser::ast::Mod>>)
+        ensures match r { Some(a) => parse_ok(content@) && *a == ast_of(content@), None => !parse_ok(content@) }
+    { unimplemented!() }
+    /// build_line_index, memoised by content hash: determined by the text alone, and a line index (PROVED for
+    /// build_line_index in unit line_index)
+    #[verifier::external_body]
+    pub(crate) fn get_line_index(&self, file_path: &Path, content: &str) -> (r: Arc<Vec<usize>>)
+        ensures (*r)@ == src_line_index(content@), is_line_index(ints((*r)@))
+    { unimplemented!() }
+    /// the text fallback (resolver.rs 628-986), result left abstract
+    #[verifier::external_body]
+    fn get_completion_context_from_text(&self, content: &str, target_line: usize) -> (r: Option<CompletionContext>)
+        ensures opt_ccv(r) == text_ctx(content@, target_line)
+    { unimplemented!() }
+/*@ extract src/fixtures/resolver.rs get_completion_context
+@tags C18 C12
+@ret r
+@sig
+    ensures opt_ccv(r) == spec_completion_ctx(self.content_of(pv(file_path)), line),
+@*/
+
+/*@ extract src/fixtures/resolver.rs cursor_inside_usefixtures_call
+@tags C18 C12
+@ret r
+@rename any cc_any
+@closure any:1 |e: &Expr| -> (b: bool) requires decreases_to!(expr => e), is_line_index(ints(line_index@)) ensures inside_post(*e, target_line, line_index@, b)
+@closure any:2 |e: &Expr| -> (b: bool) requires decreases_to!(expr => e), is_line_index(ints(line_index@)) ensures inside_post(*e, target_line, line_index@, b)
+@sig
+    requires is_line_index(ints(line_index@)),
+    ensures inside_post(*expr, target_line, line_index@, r),
+    decreases expr,
+@*/
+
+/*@ extract src/fixtures/resolver.rs check_decorator_context
+@tags C18 C12
+@ret r
+@closure any:1 |t: &Expr| -> (b: bool) ensures b == is_pytestmark_name(*t)
+@closure map:1 |v: &Box<Expr>| -> (e: &Expr) ensures *e == **v
+@sig
+    requires is_line_index(ints(line_index@)),
+    ensures opt_ccv(r) == spec_deco_ctx(stmts@, target_line, line_index@),
+    decreases stmts@,
+@loopvar 1 it
+@loop 1
+    invariant it.seq() == stmts@.as_ref(), is_line_index(ints(line_index@)),
+        dc_from(stmts@, 0, target_line, line_index@) == dc_from(stmts@, it.index@ as int, target_line, line_index@),
+@loopstart 1
+    let ghost i0 = it.index@ as int;
+    proof { assert(*stmt == stmts@[i0]);
+        assert(dc_from(stmts@, i0, target_line, line_index@)
+            == opt_or(dc_stmt(*stmt, target_line, line_index@), dc_from(stmts@, i0 + 1, target_line, line_index@))); }
+@after is_pytestmark 1
+    proof {
+        let ts = assign.targets@;
+        if !is_pytestmark {
+            assert forall|k: int| 0 <= k < ts.len() implies !is_pytestmark_name(#[trigger] ts[k]) by { let y = ts.as_ref()[k]; }
+        }
+    }
+@after pytestmark_value 1
+    proof { assert(opt_deref(pytestmark_value) == spec_pytestmark_value(*stmt)); }
+@return 3
+    lemma_inside_post(*value, target_line, line_index@, true);
+@after cursor_inside_usefixtures_call 1
+    proof { if in_lines(stmt_range(*stmt), target_line, line_index@) { lemma_inside_post(*value, target_line, line_index@, false); } }
+@loopvar 2 it2
+@loop 2
+    invariant it2.seq() == decorator_list@.as_ref(), is_line_index(ints(line_index@)),
+        stmt_decos(*stmt) == Some(decorator_list@),
+        dc_from(stmts@, 0, target_line, line_index@) == opt_or(dc_stmt(*stmt, target_line, line_index@), dc_from(stmts@, i0 + 1, target_line, line_index@)),
+        decos_ctx(decorator_list@, 0, target_line, line_index@) == decos_ctx(decorator_list@, it2.index@ as int, target_line, line_index@),
+@loopstart 2
+    proof { let j = it2.index@ as int; assert(*decorator == decorator_list@[j]);
+        assert(decos_ctx(decorator_list@, j, target_line, line_index@)
+            == opt_or(deco_ctx(*decorator, target_line, line_index@), decos_ctx(decorator_list@, j + 1, target_line, line_index@))); }
+@*/
 
 /*@ extract src/fixtures/analyzer.rs all_args
 @tags C18 C12
@@ -84,6 +184,38 @@ impl FixtureDatabase {
     proof { assert(str_views(params@) =~= declared_names(*args)); }
 @*/
 
+// exec canary: the same real body under the claim "declared_params are the REGULAR parameters only" (what mutant M1 computes):
+// must FAIL at the postcondition
+/*@ extract src/fixtures/resolver.rs get_func_context
+@tags C18
+@as canary_declared_params_regular_only
+@ret r
+@rename find_map vp_find_map
+@wrapexpr 1 `func_name.as_str().starts_with("test_")` => `Self::vp_is_test2(func_name)` with fn vp_is_test2(func_name: &Identifier) -> (r: bool) ensures r == is_test_name(idv(func_name))
+@closure map:1 |arg: &ArgWithDefault| -> (s: String) ensures s@ == pname(*arg)
+@sig
+    requires is_line_index(ints(line_index@)),
+    ensures match opt_ccv(r) { Some(CtxV::Func(f)) => f.declared == args.args@.map_values(pname_fn()), _ => true },
+@after is_fixture 1
+    proof {
+        let ds = decorator_list@;
+        if !is_fixture {
+            assert forall|i: int| 0 <= i < ds.len() implies !spec_is_fixture_decorator(&#[trigger] ds[i]) by { let y = ds.as_ref()[i]; }
+        }
+        assert(is_fixture == has_fixture_decorator(ds));
+    }
+@after scope 1
+    proof {
+        let s = decorator_list@.as_ref();
+        assert forall|j: int, o: Option<FixtureScope>| 0 <= j < s.len() && #[trigger] kw_post(s[j], kw_scope_fn(), o)
+            implies o == spec_kw(s[j], kw_scope_fn()) by { lemma_kw_post(s[j], kw_scope_fn(), o); }
+        assert(scope_post(s, scope));
+        lemma_scope_post(decorator_list@, scope);
+    }
+@after params 1
+    proof { assert(str_views(params@) =~= declared_names(*args)); }
+@*/
+
 /*@ extract src/fixtures/resolver.rs get_function_completion_context
 @tags C18 C12
 @ret r
@@ -102,6 +234,38 @@ impl FixtureDatabase {
 @*/
 }
 } // mod resolver
+
+// ---- vacuity guards: each of these must FAIL ---------------------------------------------------------------
+/// a keyword-only parameter is NOT among the declared names
+proof fn canary_kwonly_not_declared(a: CArguments)
+    requires a.kwonlyargs@.len() == 1, a.args@.len() == 0, a.posonlyargs@.len() == 0,
+    ensures !declared_names(a).contains(pname(a.kwonlyargs@[0])),
+{
+    assert(declared_names(a)[0] == pname(a.kwonlyargs@[0]));
+}
+/// a plain helper function gives a function context
+proof fn canary_helper_gets_context(s: Stmt, content: Seq<char>, tl: usize, li: Seq<usize>)
+    requires plain_helper(s), s matches Stmt::FunctionDef(f) && in_lines(f.range, tl, li),
+    ensures fc_stmt(s, content, tl, li) is Some,
+{}
+/// inside a test the context carries a scope
+proof fn canary_test_has_scope(name: Identifier, decos: Seq<Expr>, args: CArguments, returns: Option<Box<Expr>>,
+        body: Seq<Stmt>, range: TextRange, content: Seq<char>, tl: usize, li: Seq<usize>)
+    requires spec_func_ctx(name, decos, args, returns, body, range, content, tl, li) is Some, !has_fixture_decorator(decos),
+    ensures spec_func_ctx(name, decos, args, returns, body, range, content, tl, li)->0->Func_0.scope is Some,
+{}
+/// the LAST decorator that declares a scope decides
+proof fn canary_last_scope_wins(decos: Seq<Expr>, i: int)
+    requires 0 <= i < decos.len(), spec_kw(&decos[i], kw_scope_fn()) is Some,
+        forall|j: int| i < j < decos.len() ==> spec_kw(&#[trigger] decos[j], kw_scope_fn()) is None,
+    ensures Some(fixture_scope_of(decos)) == spec_kw(&decos[i], kw_scope_fn()),
+{}
+/// the assumed specifications in scope are not contradictory
+proof fn canary_false_from_assumptions(e: Expr, tl: usize, li: Seq<usize>, r: bool, ds: Seq<Expr>, sc: FixtureScope, c: Seq<char>, line: u32)
+    requires inside_post(e, tl, li, r), scope_post(ds.as_ref(), sc), is_line_index(ints(li)), parse_ok(c),
+        spec_completion_ctx(Some(c), line) is Some,
+    ensures false,
+{}
 
 } // verus!
 fn main() {}
